@@ -228,19 +228,18 @@ Theorem C04_halt_guards_necessary :
 Proof. exact halt_guards_necessary. Qed.
 Print Assumptions C04_halt_guards_necessary.
 
-(** OPEN (not proved, not used): the run guard is never violated, i.e. the
-    [blanks] pruning only ever removes true duplicates.  Evidence: no
-    violation among all 371 293 3x2 and all 371 293 2x3 tables with A0 = 1RB
-    (all three goals, depth 40, 1 458 182 refuted runs, the pruning firing in
-    93 424 of them), nor in 8 random samples of 200 000 tables each (4x2 and
-    3x3 all goals, 5x2 and 2x4 spin-out; 966 195 refuted runs, the pruning
-    firing in 99 372): scripts and outputs in work/c04_guard_stats.  What is missing for
-    a proof: a forward-determinism invariant of the search (a "blank"
-    configuration in state p at depth d says that the machine started in
-    state p on the blank tape reaches the target after exactly d steps
-    inside the known window, which determines the window), including the
-    indefinite blocks of sweeps.  With it, [bw_skips_justified] could be
-    dropped from the halt and spin-out theorems above. *)
+(** The run guard is never violated, i.e. the [blanks] pruning only ever
+    removes true duplicates.  This was OPEN when the guarded theorem above was
+    written (evidence then: no violation among all 371 293 3x2 and all 371 293
+    2x3 tables with A0 = 1RB, all three goals, depth 40, nor in 8 random
+    samples of 200 000 larger tables).  It is now SETTLED at the end of this
+    file: [C04_skips_always_justified] proves it for every table with
+    pairwise distinct slots (every BTreeMap, every parsed program), and
+    [C04_skips_always_justified_stmt_literal_false] shows that the statement
+    as first written below - over arbitrary association lists - is false
+    (a list repeating a slot).  The unguarded corollaries are
+    [C04_bw_halt_refuted_sound_nodrop], [C04_bw_spinout_refuted_sound_nodrop],
+    [C04_bw_refuted_sound_nodrop]. *)
 Definition C04_skips_always_justified_stmt : Prop :=
   forall sw comp depth s,
     sw_nodrop sw = true ->
@@ -248,3 +247,106 @@ Definition C04_skips_always_justified_stmt : Prop :=
        bw_skips_justified sw comp depth (halt_configs sw) = true) /\
     (cant_spin_out_sw sw comp depth = Ok (BwRefuted s) ->
        bw_skips_justified sw comp depth zero_reflexive_configs = true).
+
+(** ---- SETTLED (Proofs/ReasonSkips.v) ----
+    The run guard is never violated on a table whose slots are pairwise
+    distinct (the Rust [CompProg] is a [BTreeMap]; [cp_sortedb] is its
+    decidable invariant) - for every pair of switches, every depth and
+    WHATEVER the answer of the run.  Reason: a tape that contains an
+    indefinite block is never "blank" (the block sits on a block of another
+    colour and is never removed); a configuration without indefinite blocks
+    at depth d is reached from its target by d plain backward steps along
+    real instructions, every tape it describes runs forward into the target
+    in exactly d steps, and the chain of backward steps is determined by
+    that run; two "blank" configurations in the same state p both describe
+    (p, blank tape), so both chains are read off ONE run, which halts at one
+    time only / spins, once it does, for ever in the same state and
+    direction: the two tapes are identical up to [bs_head].
+    The statement as literally written above quantifies over ALL association
+    lists; it fails on a list with a repeated slot
+    ([C04_skips_justified_needs_distinct_slots]). *)
+From BB Require Import ReasonSkips.
+From BB Require InstrsRoundTrip.
+
+Theorem C04_skips_always_justified : forall sw comp depth,
+  NoDup (map fst comp) ->
+  bw_skips_justified sw comp depth (halt_configs sw) = true /\
+  bw_skips_justified sw comp depth zero_reflexive_configs = true.
+Proof. exact skips_always_justified. Qed.
+Print Assumptions C04_skips_always_justified.
+
+(** the decidable BTreeMap invariant implies the hypothesis *)
+Theorem C04_sorted_distinct_slots : forall comp : comp_prog,
+  InstrsRoundTrip.cp_sortedb comp = true -> NoDup (map fst comp).
+Proof. exact cp_sortedb_nodup. Qed.
+Print Assumptions C04_sorted_distinct_slots.
+
+(** every parsed program has pairwise distinct slots *)
+Theorem C04_parsed_distinct_slots : forall s (comp : comp_prog),
+  from_str s = Some comp -> NoDup (map fst comp).
+Proof. exact from_str_nodup. Qed.
+Print Assumptions C04_parsed_distinct_slots.
+
+(** the open statement, with the hypothesis it needs *)
+Theorem C04_skips_always_justified_sorted : forall sw comp depth s,
+  InstrsRoundTrip.cp_sortedb comp = true ->
+  sw_nodrop sw = true ->
+  (cant_halt_sw sw comp depth = Ok (BwRefuted s) ->
+     bw_skips_justified sw comp depth (halt_configs sw) = true) /\
+  (cant_spin_out_sw sw comp depth = Ok (BwRefuted s) ->
+     bw_skips_justified sw comp depth zero_reflexive_configs = true).
+Proof.
+  intros sw comp depth s Hs _.
+  destruct (skips_always_justified sw comp depth (cp_sortedb_nodup comp Hs)) as [A B].
+  split; intros _; assumption.
+Qed.
+Print Assumptions C04_skips_always_justified_sorted.
+
+(** the hypothesis is necessary: a repeated slot, a refuted run, a pruned
+    configuration that is no duplicate *)
+Theorem C04_skips_justified_needs_distinct_slots :
+  let sw := mkSw true true in
+  sw_nodrop sw = true /\
+  cant_halt_sw sw dup_prog 10 = Ok (BwRefuted 2) /\
+  bw_skips_justified sw dup_prog 10 (halt_configs sw) = false.
+Proof. exact dup_keys_unjustified. Qed.
+Print Assumptions C04_skips_justified_needs_distinct_slots.
+
+Theorem C04_skips_always_justified_stmt_literal_false : ~ C04_skips_always_justified_stmt.
+Proof.
+  intro H. destruct (H (mkSw true true) dup_prog 10 2 eq_refl) as [Hh _].
+  destruct dup_keys_unjustified as (_ & R & U). rewrite (Hh R) in U. discriminate.
+Qed.
+Print Assumptions C04_skips_always_justified_stmt_literal_false.
+
+(** ---- the global soundness theorems WITHOUT the run guard ---- *)
+Theorem C04_bw_halt_refuted_sound_nodrop : forall sw comp depth s,
+  NoDup (map fst comp) ->
+  sw_nodrop sw = true ->
+  halt_box_ok sw comp = true ->
+  to_prog comp (0, 0) <> None ->
+  cant_halt_sw sw comp depth = Ok (BwRefuted s) ->
+  forall n sl, ~ halts_at (to_prog comp) init_config n sl.
+Proof. exact bw_halt_refuted_sound_nodrop. Qed.
+Print Assumptions C04_bw_halt_refuted_sound_nodrop.
+
+Theorem C04_bw_spinout_refuted_sound_nodrop : forall sw comp depth s,
+  NoDup (map fst comp) ->
+  sw_nodrop sw = true ->
+  cant_spin_out_sw sw comp depth = Ok (BwRefuted s) ->
+  forall n, ~ spins_out_at (to_prog comp) init_config n.
+Proof. exact bw_spinout_refuted_sound_nodrop. Qed.
+Print Assumptions C04_bw_spinout_refuted_sound_nodrop.
+
+Theorem C04_bw_refuted_sound_nodrop : forall sw comp depth s,
+  NoDup (map fst comp) ->
+  sw_nodrop sw = true ->
+  (halt_box_ok sw comp = true -> to_prog comp (0, 0) <> None ->
+   cant_halt_sw sw comp depth = Ok (BwRefuted s) ->
+   forall n sl, ~ halts_at (to_prog comp) init_config n sl) /\
+  (cant_blank_sw sw comp depth = Ok (BwRefuted s) ->
+   forall n, ~ erases_at (to_prog comp) init_config n) /\
+  (cant_spin_out_sw sw comp depth = Ok (BwRefuted s) ->
+   forall n, ~ spins_out_at (to_prog comp) init_config n).
+Proof. exact bw_refuted_sound_nodrop. Qed.
+Print Assumptions C04_bw_refuted_sound_nodrop.
